@@ -83,7 +83,7 @@ func TestC19(t *testing.T) {
 			s.Checkers = []func(*sim.Sim, *sim.Step) *sim.Violation{sim.CheckAtomicity("C19"), sim.CheckErrorAckFootprint("C19"), sim.LabelFailureStage}
 			out := runOps(s, append(tokenPreamble(c.N), c.Ops...))
 			col.AddLabels(s.Labels)
-			deep := s.Labels["stage:proof"]+s.Labels["stage:routing"]+s.Labels["stage:callback"]+s.Labels["stage:late"] > 0
+			deep := s.Labels["stage:proof"]+s.Labels["stage:routing"]+s.Labels["stage:callback"]+s.Labels["stage:after-first-write"] > 0
 			if deep && s.Labels["error-ack-on-dest:NFT"]+s.Labels["error-ack-on-dest:MT"] > 0 {
 				col.MarkNontrivial(map[string]any{"n": c.N, "trace": tail(s.Trace, 14)})
 			}
